@@ -32,6 +32,9 @@ package fakeprom
 // point both connections are demonstrably open and waiting.  In free-running mode nothing is ever aborted
 // by construction of the stress test, so suspects are final there.
 //
+// Successful query_range answers (gated mode only) are sent with "Connection: close" and Release waits for the
+// client to close the connection: see writeAndAwaitClose for what that buys.
+//
 // Success bodies carry the request's ID ("nonce") in the payload (a label value, an external label, a flag
 // value, the help text), so two different answers to the same question are distinguishable by the callers.
 
@@ -97,6 +100,7 @@ type Stats struct {
 	MaxInFlight   int
 	MaxKeysAtOnce int // max number of distinct questions (endpoint+question) in flight together
 	Aborted       int
+	CloseTimeouts int // range-slice successes whose connection the client did not close within 15s (see writeAndAwaitClose)
 }
 
 type Gated struct {
@@ -227,7 +231,10 @@ func (g *Gated) handle(w http.ResponseWriter, r *http.Request) {
 		if delay > 0 {
 			time.Sleep(delay)
 		}
-		ans = Answer{OK: !fail, Status: 500, Body: "fakeprom: injected failure"}
+		ans = Answer{OK: true}
+		if fail {
+			ans = Answer{Status: 500, Body: "fakeprom: injected failure"}
+		}
 		g.finish(req, ans)
 	} else {
 		select {
@@ -254,6 +261,11 @@ func (g *Gated) handle(w http.ResponseWriter, r *http.Request) {
 		if body == "" {
 			body = g.successBody(req)
 		}
+		if !free && req.Endpoint == "query_range" {
+			if g.writeAndAwaitClose(w, body) {
+				return
+			}
+		}
 		w.Header().Set("Content-Type", "application/json")
 		w.WriteHeader(http.StatusOK)
 		_, _ = w.Write([]byte(body))
@@ -266,6 +278,40 @@ func (g *Gated) handle(w http.ResponseWriter, r *http.Request) {
 	}
 	if f, ok := w.(http.Flusher); ok {
 		f.Flush()
+	}
+}
+
+// writeAndAwaitClose sends a complete 200 response with "Connection: close" on the hijacked connection and
+// waits until the client closes its end. net/http's client closes such a connection as soon as the body has
+// been read to EOF (or the request is cancelled); pint reads a range response to EOF only after it has been
+// decoded. A test that cancels nothing in the meantime therefore knows, when Release returns, that the slice
+// was received and decoded in full - it cannot be lost to a later cancellation of the range query it belongs to.
+// Returns false if the connection could not be hijacked (nothing written; the caller answers normally).
+func (g *Gated) writeAndAwaitClose(w http.ResponseWriter, body string) bool {
+	hj, ok := w.(http.Hijacker)
+	if !ok {
+		return false
+	}
+	conn, buf, err := hj.Hijack()
+	if err != nil {
+		return false
+	}
+	defer conn.Close()
+	fmt.Fprintf(buf, "HTTP/1.1 200 OK\r\nContent-Type: application/json\r\nContent-Length: %d\r\nConnection: close\r\n\r\n%s", len(body), body)
+	_ = buf.Flush()
+	_ = conn.SetReadDeadline(time.Now().Add(15 * time.Second))
+	one := make([]byte, 1)
+	for {
+		_, err := conn.Read(one)
+		if err == nil {
+			continue
+		}
+		if ne, ok := err.(net.Error); ok && ne.Timeout() {
+			g.mu.Lock()
+			g.stats.CloseTimeouts++
+			g.mu.Unlock()
+		}
+		return true
 	}
 }
 
